@@ -40,8 +40,14 @@ contract(BASE + 'get_value_and_derivatives', 'C03', self_class='Expression', exa
          types={'betas': 'dict[str, float] | None', 'database': 'Database | None', 'number_of_draws': 'int', 'gradient': 'bool',
                 'hessian': 'bool', 'bhhh': 'bool', 'aggregation': 'bool', 'prepare_ids': 'bool', 'named_results': 'bool'},
          requires={'own_numbering': 'not prepare_ids and self.id_manager is not None',
-                   'names_are_keys': f'forall(lambda q: {_N}[q] in self.id_manager.free_betas.expressions, 0, len({_N}))'},
-         returns='Any', check_frame=False, check_safe=False, may_raise=['BiogemeError'],
+                   'names_are_keys': f'forall(lambda q: {_N}[q] in self.id_manager.free_betas.expressions, 0, len({_N}))',
+                   # round 3 (m4): check_safe=False removed; the implicit-exception obligations of the two comprehensions are now PROVED
+                   # from what IdManager.prepare establishes (postconditions *_names_are_keys of contracts/c03c_prepare.py; the
+                   # dictionaries of expressions_names_indices are never None)
+                   'tables_exist': 'self.id_manager.free_betas.expressions is not None and self.id_manager.fixed_betas.expressions is not None',
+                   'fixed_names_are_keys': 'forall(lambda q: self.id_manager.fixed_betas.names[q] in self.id_manager.fixed_betas.expressions, '
+                                           '0, len(self.id_manager.fixed_betas.names))'},
+         returns='Any', check_frame=False, may_raise=['BiogemeError'],
          ensures={
              'one_value_per_name': f'implies(betas is not None, len(self.id_manager.free_betas_values) == len({_N}))',
              'named_parameter_gets_the_value_of_its_name':
